@@ -4,6 +4,11 @@
 #         (releases, pre-releases, build-metadata variants) against a reference Cargo matcher written twice from
 #         the semver crate's documentation (field-wise rules and the "equivalent to" bound tables; the two
 #         transcriptions must agree on every release, else exit 2) with exactly the two pinned deviations.
+#  dep    the object through which the cargo interpreter asks (manifest.Dependency: accepts_version and api are memoised,
+#         update_version replaces the requirement): every operation sequence up to a depth bound on a fresh object, every
+#         read against the reference matcher for the requirement the object has at that moment.
+#  lock   Interpreter._resolve_package / _dep_package on a Cargo.lock with every subset of a version set x every comparator:
+#         the most recent version the reference matcher accepts; the dependency pinned to it answers for the pinned requirement.
 #  order  all six SemVer operators on every pair of a version set; trichotomy / derived operators / antisymmetry /
 #         transitivity over all triples on the recorded matrix; SemVer section 11 reference order on every pair.
 #  cfg    every expression up to the depth bound over atoms {a, b, a="x", b=""} x all 16 configurations against a
@@ -655,7 +660,17 @@ DEP_R = []            # the requirement set of this tier
 DEP_DEPTH = 0
 
 
+_REF_MASKS = {}
+
+
 def ref_masks(req, vers):
+    k = (req, tuple(vers))
+    if k not in _REF_MASKS:
+        _REF_MASKS[k] = _ref_masks(req, vers)
+    return _REF_MASKS[k]
+
+
+def _ref_masks(req, vers):
     cs = ref_parse_req(req)
     e = spec = 0
     for k, v in enumerate(vers):
@@ -843,6 +858,8 @@ def part_dep(ck, classes):
         DEP_EXP[r] = ref_masks(r, DEP_VERS)
         ck.require(r in DEP_API, 'no documented api for %r' % r)
     for a, b in itertools.combinations(DEP_R + [''], 2):
+        if (a, b) == ('*', ''):
+            continue                                 # the same requirement in two spellings
         (ea, sa), (eb, sb) = DEP_EXP[a], DEP_EXP[b]
         ck.require((ea ^ eb) & sa & sb, 'requirements %r and %r accept the same versions of the list: a stale matcher would not show' % (a, b))
     ops_all = [('acc',), ('api',)] + [('upd', r) for r in DEP_R]
@@ -894,6 +911,7 @@ def part_dep(ck, classes):
 # ---- Cargo.lock: the most recent version satisfying the requirement ------------------------------------------------
 LOCK_VERS = ['0.1.2', '1.0.0-alpha', '1.0.0', '1.2.1', '1.9.0', '1.10.0', '2.0.0', '0.0.1', '2.0.0-alpha']     # ascending for the first 7
 LOCK_N = 0
+LOCK_ORDERS = 3       # file orders of a version subset: ascending, descending, rotated
 LOCK_REQS = []        # (text, accept mask, specified mask over LOCK_VERS[:LOCK_N])
 LOCK_RANK = []        # LOCK_RANK[k] = position of LOCK_VERS[k] in SemVer order
 LOCK_DIR = None
@@ -922,7 +940,7 @@ def write_lock(path, order):
 
 def lock_orders(sub):
     asc = sorted(sub, key=lambda k: LOCK_RANK[k])
-    res = [asc, asc[::-1], asc[1:] + asc[:1]]
+    res = [asc, asc[::-1], asc[1:] + asc[:1]][:LOCK_ORDERS]
     out = []
     for o in res:
         if o not in out:
@@ -935,7 +953,10 @@ def best_of(sub_mask, acc):
     return max(ks, key=lambda k: LOCK_RANK[k]) if ks else None
 
 
-def lock_case(interp, order, text, acc, spec, want_log=False):
+_DIRECT = {}         # requirement -> mask over the lock versions of cargo_parse(requirement) asked directly (per process)
+
+
+def lock_case(interp, order, text, acc, spec):
     """One requirement against one loaded Cargo.lock.  -> [(key, what)], evaluations, log"""
     from mesonbuild.cargo.interpreter import PackageConfiguration
     from mesonbuild.mesonlib import MachineChoice
@@ -945,10 +966,14 @@ def lock_case(interp, order, text, acc, spec, want_log=False):
     pick = best_of(sub, acc)
     want = vers[pick] if pick is not None else None
     # the matcher itself on the versions of this lock (a wrong answer here is the req family's finding, not a new one)
-    f = impl_accepts(text)
-    for k in order:
-        if f(vers[k]) is not bool((acc >> k) & 1):
-            return [(classify_req(ref_parse_req(text), vers[k], f(vers[k])), 'cargo_parse(%r)(%r) = %r' % (text, vers[k], f(vers[k])))], 1, log
+    if text not in _DIRECT:
+        f = impl_accepts(text)
+        _DIRECT[text] = sum(1 << k for k, v in enumerate(vers) if f(v))
+    d = (_DIRECT[text] ^ acc) & sub
+    if d:
+        k = (d & -d).bit_length() - 1
+        got = bool((_DIRECT[text] >> k) & 1)
+        return [(classify_req(ref_parse_req(text), vers[k], got), 'cargo_parse(%r)(%r) = %r' % (text, vers[k], got))], 1, log
     # 1. _resolve_package with the matcher of a dependency object
     dep = make_dep('string', text) if text else make_dep('unversioned', '')
     got = interp._resolve_package('foo', dep.accepts_version)
@@ -1050,9 +1075,10 @@ def lock_worker(sub):
 
 
 def part_lock(ck, classes):
-    global LOCK_N, LOCK_REQS, LOCK_RANK, LOCK_DIR
+    global LOCK_N, LOCK_REQS, LOCK_RANK, LOCK_DIR, LOCK_ORDERS
     from verif.core import scratch_root
     LOCK_N = ck.q(7, 9)
+    LOCK_ORDERS = ck.q(2, 3)
     vers = LOCK_VERS[:LOCK_N]
     P = [parse_version(v) for v in vers]
     LOCK_RANK = [sum(1 for q in P if sem_cmp(q, p) < 0) for p in P]
@@ -2086,11 +2112,19 @@ def main():
     ck.assume('reference matcher = the semver crate\'s documented comparator semantics (field-wise rules and, independently, the '
               '"equivalent to" bound tables; both transcriptions agree on every release of the grid) with the two deviations pinned by '
               'unittests/cargotests.py: partial =/> pad with zero; an all-zero caret means <1.0.0')
+    ck.assume('x and X are wildcard characters like * (1.x, 1.2.X, x): the semver crate\'s parser accepts the three of them in the same '
+              'places; only the bare and the I.x / I.J.x / I.x.x spellings are enumerated')
+    ck.assume('Dependency / Cargo.lock families: the requirement in force is the one given at construction or by the last '
+              'update_version(); "the most recent satisfying the constraints" (docstring of _resolve_package) = the highest version in '
+              'SemVer order among those of that crate in Cargo.lock which the reference matcher accepts; a lock containing a version that '
+              'is an unspecified point of the requirement is skipped and counted; Dependency.api is compared with the rule documented in '
+              'version.api only for the eight requirements of the history family (elsewhere: same answer as a fresh object, and no '
+              'exception other than MesonException); Interpreter.packages is a stub that has a package for every (name, api) key')
     ck.assume('version strings with fewer than three components are read with the missing ones as zero (pinned by cargotests)')
     ck.assume('unspecified, skipped and counted: a pre-release version inside the bounds of a requirement that names a pre-release of a '
               '*different* major.minor.patch (Cargo rejects, meson documents "any pre-release comparator enables pre-releases"); '
               'cfg trailing commas "all(a,)" / "not(a,)"; a bare all/any/not where an option name may stand (Cargo: error, rustc: option '
-              'name - either MesonException or the rustc value is accepted, e.g. cfg(all) -> False); white space other than U+0020 between '
+              'name - either MesonException or the rustc value is accepted, e.g. cfg(all) -> False, but one and the same reading of a word in every position); white space other than U+0020 between '
               'cfg tokens (rustc skips every Pattern_White_Space character, Cargo\'s tokenizer skips U+0020 only and reports a tab or a '
               'newline as an unexpected character): for an expression that is well-formed apart from such white space either the '
               'structural value or MesonException is accepted, never another value, and one kind of white space must get the same '
@@ -2107,7 +2141,14 @@ def main():
               rule='req: every single comparator ({none,^,~,=,<,<=,>,>=} x every I / I.J / I.J.K over {0,1,2}, wildcards I.*, I.J.*, I.*.*, '
                    '7 pre-release forms; + spacing variants, "", "*") and every ordered comma pair of them x a version grid ({0..3}^3 '
                    'releases, partial and +build spellings, 24 pre-releases), real cargo_parse(req)(version) on every point vs the reference '
-                   'matcher; a supplementary multi-digit grid ({2,10} vs {1,2,3,9,10,11}^3). order: all six operators on every pair of the '
+                   'matcher; a supplementary multi-digit grid ({2,10} vs {1,2,3,9,10,11}^3); the x / X spellings of every wildcard. '
+                   'dep: every sequence of <=4 (thorough 5) operations over {read accepts_version on 12 versions, read api, '
+                   'update_version(r) for r in 6 (thorough 8) requirements that pairwise differ on the version list} x every initial '
+                   'requirement x {string, table, workspace table, workspace string} + a dependency without version, each on a fresh '
+                   'manifest.Dependency built by Dependency.from_raw, every read vs the reference matcher for the current requirement. '
+                   'lock: every non-empty subset of 7 (thorough 9) versions as the entries of one crate in a Cargo.lock read by '
+                   'load_cargo_lock, in 2 (thorough 3) file orders, x every single comparator: _resolve_package vs the highest accepted '
+                   'version, then _dep_package twice on a Dependency and its accepts_version / api afterwards. order: all six operators on every pair of the '
                    'version set, axioms over all triples on the recorded matrix, section-11 reference sign on every pair. cfg: every '
                    'expression of depth<=2 (all/any arity 0-2, not, atoms a, b, a="x", b="") in 3 spellings, a depth-3 layer, all '
                    'single-token deletions/duplications/replacements/insertions, all token strings up to the bound, each x configurations; '
